@@ -21,6 +21,10 @@ ran = []
 def sh(cmd, **kw):
     r = subprocess.run(cmd, capture_output=True, text=True, **kw)
     return r
+import json as _json
+_mp = os.path.join(a.dir, "meta.json")
+if os.path.exists(_mp) and _json.load(open(_mp)).get("obsolete"):
+    print("OBSOLETE (kept for the record):", _json.load(open(_mp))["obsolete"][:200]); shutil.rmtree(tmp, ignore_errors=True); sys.exit(0)
 try:
     subprocess.check_call(["git", "-C", "/repo", "worktree", "add", "--detach", "-q", wt, "HEAD"])
     r = sh(["git", "-C", wt, "apply", "--whitespace=nowarn", os.path.join(a.dir, "patch.diff")])
